@@ -116,6 +116,11 @@ class SMGen(Gen):
                 for i in range(len(args)):
                     if args[i] in p_dc:
                         args[i]=p_dc[args[i]] # type: ignore
+                    elif args[i] in dr_dc:
+                        args[i]=dr_dc[args[i]] # type: ignore
+                    else:
+                        # depends on a derived factor that is not available here (e.g., a transition)
+                        _cexit("Unsupported level", ld[0], "is not supported by SMGen.")
 
                 sm_levels.append(_DerivedLevel(ld[0],_WithinTrial(ld[1],ld[2]),ld[3]))
 
